@@ -61,7 +61,7 @@ func (c *Ctx) CheckGrammar(text string, feats map[string]string) ref.ParseResult
 		want |= ref.CatUnknownFn | ref.CatArity | ref.CatType
 	}
 	// a statically invalid slice step may be reported before the syntax error
-	if strings.Contains(text, ":0") || strings.Contains(text, ": 0") || strings.Contains(text, ":-0") {
+	if pr.HasZeroStep {
 		want |= ref.CatValue
 	}
 	if lc.NCats != 1 || lc.Cats&want == 0 {
